@@ -142,6 +142,16 @@ chk("C03", "model_checking",
     "TLA+ specs Rotation.tla (exact rational builders) and Gimbal.tla (magnitude-class product) model-checked by TLC + replay into both modules",
     "DESIGN.md section 7 C03")
 
+chk("C13", "model_checking",
+    "Strain.tla works on integer upper-triangular pairs (B0, B) with the exact strain sym(B0.inv B) - I as integer numerators over "
+    "2 det B (filtered to |eps| <= 0.1 in the model) and Cayley rotations; TLC checks the identities that make epsilon_to_b's "
+    "back-substitution the inverse of b_to_epsilon and enumerates paths through b_to_epsilon/epsilon_to_b, the _old pair and "
+    "UBI -> ubi_to_u_and_eps. Every path is replayed in both modules (1e-9), zero strain must give form_b_mat(cell). The deviation of "
+    "tools.ubi_to_u_and_eps (missing 2pi) is recognised exactly by its deviation model and reported as a known finding.",
+    "Trusted: TLC; float concretisation; Cholesky uniqueness links B0 to the cell (also checked numerically as the zero-strain case).",
+    "TLA+ spec Strain.tla (exact rational strain) model-checked by TLC + path replay into both modules; three-way verdict with a named deviation model",
+    "DESIGN.md section 7 C13")
+
 ALL = ["C%02d" % i for i in range(1, 21)]
 
 
